@@ -223,7 +223,7 @@ EnvPol(env, d) ==
 VARIABLES pol,      \* the policy of this run
           script,   \* outcomes the environment will produce, attempt by attempt
           st,       \* judge state
-          calls,    \* history: <<[i, gap, o], ...>>
+          calls,    \* history: <<[i, gap, o], ...>> (gap = -1 once judged and forgotten)
           waited,   \* duration of the last sleep
           phase,    \* "ready" (an attempt is due) | "decide" | "done"
           result
@@ -258,7 +258,10 @@ Sleep ==
        /\ \/ DelayOK(pol, st.n - 1, st.k, HintOf(st.last), d, Tol)
           \/ DevF14a(pol, st.n - 1, HintOf(st.last), d, Tol)
        /\ waited' = d
-  /\ phase' = "ready" /\ UNCHANGED <<pol, script, st, calls, result>>
+  \* every recorded gap has been judged (invariants GapBound, Exponential) in the states since its Call:
+  \* forget it (-1), so that behaviours differing only in past jitter draws reach the same state
+  /\ calls' = [q \in 1..Len(calls) |-> [calls[q] EXCEPT !.gap = -1]]
+  /\ phase' = "ready" /\ UNCHANGED <<pol, script, st, result>>
 
 \* what the caller gets for the outcome o of attempt n (for a scripted HTTP status: the variant
 \* CdnClient chooses - one admissible choice, the judge accepts any of the same class)
@@ -294,7 +297,8 @@ StopsAtFirst == \A i \in 1..(Len(calls) - 1) : ClassOf(calls[i].o) \notin {"ok",
 GapBound ==
   \A i \in 2..Len(calls) :
     LET h == HintOf(calls[i - 1].o)  g == calls[i].gap IN
-    IF h >= 0 THEN g >= h /\ 10 * g <= 13 * h + 10 * Tol /\ (~pol.jit => g <= h + Tol)
+    IF g < 0 THEN TRUE        \* judged when it was recorded (see Sleep)
+    ELSE IF h >= 0 THEN g >= h /\ 10 * g <= 13 * h + 10 * Tol /\ (~pol.jit => g <= h + Tol)
     ELSE 10 * g <= 13 * pol.maxb + 10 * Tol /\ (~pol.jit => g <= pol.maxb + Tol)
 \* integer multipliers >= 1, jitter off, no hints: the i-th wait is min(initial * m^(i-1), max)
 RECURSIVE PowCap(_, _, _, _)
@@ -304,7 +308,7 @@ Exponential ==
      /\ ~(pol.init > pol.maxb /\ "F14a" \in KnownDeviations))
   => \A i \in 2..Len(calls) :
        LET b == PowCap(pol.init, MultRat(pol.mult)[1], i - 2, pol.maxb) IN
-       calls[i].gap >= b /\ calls[i].gap <= b + Tol
+       calls[i].gap < 0 \/ (calls[i].gap >= b /\ calls[i].gap <= b + Tol)
 ResultIs ==
   phase = "done" /\ result.kind \notin {"waiting", "panic"} =>
     /\ Len(calls) >= 1
